@@ -10,7 +10,7 @@ reg("C10",
                  "Proofs/PipelineLive.v", "Proofs/C10_Proofs.v", "Properties/C10.v", "Check/C10_Check.v"],
     codes={1: "model-mismatch", 2: "property-checker-rejects-impl", 3: "mismatch+property",
            4: "run-did-not-return", 5: "handler-called-after-return-or-wrong-cursor"},
-    n_quick=420, n_thorough=12000, n_escalate=2500,
+    n_quick=1000, n_thorough=12000, n_escalate=2500,
     rule="layouts: bundle size 1-20, 1-4 consecutive bundles, skipped numbers (0/15/40 %), empty bundles, legacy leading "
          "block below the bundle base, start anywhere in the first bundle (also on a missing number), stop block before the "
          "start / in any bundle / on a missing number / beyond the last bundle / absent, parent-link break at a random "
